@@ -29,7 +29,9 @@ REQUIRED = ["waiters_fired", "fired_on_later_register", "fired_immediately",
             "lifecycles", "up_deferred", "quits"]
 TIMEOUT = {"quick": 600, "thorough": 5400}
 
-NAMES = ["ca", "cb", "cc", "cd", "ce"]
+# (names with underscores, one of them extending another name: handler names
+#  are _handle_<component>_<Event> and the component part must be taken whole)
+NAMES = ["ca", "cb", "cc", "ca_x", "c_e"]
 
 
 class Mon (object):
